@@ -78,12 +78,12 @@ def parent (node_index : Nat) : Option Nat :=
     if right_ancestor_count ≠ 0 then some (add64 node_index 1)
     else some (add64 node_index (shl1 (inc32 height)))
 
-/-- `node_indices_added_by_append(old_leaf_count)` -/
+/-- `node_indices_added_by_append(old_leaf_count)`
+    (written with `Option.map` rather than `match`: a `match` whose discriminant contains the translated word
+    arithmetic makes equation-lemma generation evaluate `% 2^64` on open terms) -/
 def node_indices_added_by_append (old_leaf_count : Nat) : Option (List Nat) :=
-  let node_index := leaf_index_to_node_index old_leaf_count
-  match right_lineage_length_from_node_index node_index with
-  | none => none
-  | some right_count => some ((List.range (right_count + 1)).map fun k => add64 node_index k)
+  (right_lineage_length_from_node_index (leaf_index_to_node_index old_leaf_count)).map fun right_count =>
+    (List.range (right_count + 1)).map fun k => add64 (leaf_index_to_node_index old_leaf_count) k
 
 /-- the `while` loop of `get_authentication_path_node_indices`; returns the final node index and the path -/
 def authPathLoop (peak_node_index node_count : Nat) :
